@@ -1458,7 +1458,37 @@ func sPipeSchedule(out *vOut, id int, r *rand.Rand) {
 		return true
 	}
 
-	// 1. a first set; the sender starts its flush and blocks in the first write
+	// idle: the sender is outside its critical section with nothing pending and
+	// (the pipe being synchronous) nothing is in flight
+	drainUntilIdle := func(setsDone chan bool) {
+		for dl := time.Now().Add(6 * time.Second); time.Now().Before(dl); {
+			if readOne(20 * time.Millisecond) {
+				continue
+			}
+			select {
+			case <-setsDone:
+			default:
+				continue
+			}
+			if w.mutex().TryLock() {
+				idle := true
+				if hasNew {
+					idle, _ = w.advMap("new")
+				}
+				w.mutex().Unlock()
+				if idle && (hasNew || (!readOne(80*time.Millisecond) && !readOne(80*time.Millisecond))) {
+					return
+				}
+			}
+		}
+	}
+	// 0. an initial set, fully delivered: from here on the sender sits in its
+	// incremental loop (what follows is a diff flush, not the first flush)
+	closed := make(chan bool)
+	close(closed)
+	callSet(randSet(0))
+	drainUntilIdle(closed)
+	// 1. a further set; the sender starts its flush and blocks in the first write
 	a := randSet(3)
 	callSet(a)
 	want := a
@@ -1485,32 +1515,17 @@ func sPipeSchedule(out *vOut, id int, r *rand.Rand) {
 		}
 		close(setsDone)
 	}()
-	time.Sleep(time.Duration(1+r.Intn(5)) * time.Millisecond) // the Set is now waiting for / has taken the lock
+	// the peer stays silent until the Set() calls have either all returned (a sender
+	// that does not hold the lock while writing lets them through) or are
+	// evidently waiting for the sender (20 ms)
+	select {
+	case <-setsDone:
+	case <-time.After(20 * time.Millisecond):
+	}
+	time.Sleep(time.Duration(r.Intn(3)) * time.Millisecond)
 	want = last
 	// 4. the peer resumes reading; the connection is left alone
-	// quiescence is decided from the session, not from timing: all Set() calls have
-	// returned, the sender is outside its critical section (TryLock) with nothing
-	// pending, and (the pipe being synchronous) nothing is in flight
-	for dl := time.Now().Add(6 * time.Second); time.Now().Before(dl); {
-		if readOne(20 * time.Millisecond) {
-			continue
-		}
-		select {
-		case <-setsDone:
-		default:
-			continue
-		}
-		if w.mutex().TryLock() {
-			idle := true
-			if hasNew {
-				idle, _ = w.advMap("new")
-			}
-			w.mutex().Unlock()
-			if idle && (hasNew || (!readOne(80*time.Millisecond) && !readOne(80*time.Millisecond))) {
-				break
-			}
-		}
-	}
+	drainUntilIdle(setsDone)
 	go io.Copy(io.Discard, c2) // from here on never block the sender (Close() needs its lock)
 	<-setsDone
 	mu.Lock()
